@@ -1011,7 +1011,7 @@ class Eval:
                     if cache_set and op.get("mutate") and st.get("mutated"):
                         aliased_overwrite = True
                         ctx.count("history_aliased_overwrite")
-                if exact and not aliased_overwrite:
+                if exact:     # copies are handed out: overwrites do not reach the object, the plain state machine applies
                     if acc == "get_lonlats":
                         sl = op.get("slice")
                         sl_txt = "None" if sl is None else "(Some (%s, %s))" % (zlist(rows), zlist(cols))
@@ -1032,7 +1032,7 @@ class Eval:
                             tabP[k_] = (xs[cols[0]], ys[rows[0]], float(pl_), float(pa_))
                     obs_txt.append("[" + "; ".join("[" + "; ".join("(%s, %s)" % (fhex(lo[i, j]), fhex(la[i, j])) for j in range(lo.shape[1])) + "]"
                                                    for i in range(lo.shape[0])) + "]")
-            if exact and good and ops_txt and not aliased_overwrite:
+            if exact and good and ops_txt:
                 def tab(t):
                     return "[" + "; ".join("((%s, %s), (%s, %s))" % tuple(fhex(v) for v in e) for e in t.values()) + "]"
                 self.coq["history"].append("(%s, %s, %s, [%s], ([%s] : list (list (list (float * float)))))" % (
